@@ -80,6 +80,7 @@ func (c *ctx) report(vs []viol) {
 		if ok {
 			e["count"] = e["count"].(int) + 1
 			c.firstMu.Unlock()
+			c.run.Report(v.sig, v.kase, "(further case of this class)") // counted; only the first case of a class is kept
 			continue
 		}
 		d := v.detail()
